@@ -502,5 +502,12 @@ func (s *Stream) Next() (start, rtt, inflight int64, drop bool) {
 	}
 	s.l.Now += r.Range(1, 50_000_000)
 	start = s.l.Now
+	if r.Bool(6) {
+		// samples need not arrive in start-time order (a slow request finishes after faster ones that started later)
+		start = s.l.Now - r.Range(1, 400_000_000)
+		if start < 0 {
+			start = 0
+		}
+	}
 	return
 }
